@@ -214,8 +214,11 @@ def c01_pull_offers(ex, S, T):
         return out
     t_lo, t_hi = S.nows[0], S.nows[-1]
     total = 0
-    for m in S.pre['Message']:
-        total = total + Ite(m.exists, m.v['payload'].len, 0)
+    for p in S.pre['Delivery']:
+        ln = 0
+        for m in S.pre['Message']:
+            ln = Ite(And(m.exists, ex.eq(m.v['id'], p.v['message_id'])), m.v['payload'].len, ln)
+        total = total + Ite(p.exists, ln, 0)
     budget = And(a['max_messages'] >= len(S.pre['Delivery']), a['max_bytes'] >= total)
     tgt = target_sub(S, ex, a)
     res = S.res['deliveries']
@@ -301,4 +304,364 @@ def c02_independence(ex, S, T):
                 out.append(('other-subscription-untouched[%d]' % j, Implies(Not(addressed), row_same(ex, s, q))))
             else:
                 out.append(('subscriptions-untouched[%d]' % j, row_same(ex, s, q)))
+    return out
+
+
+# ------------------------------------------------------------------ C06
+def moved(p, q):
+    return And(p.exists, p.isnull('completed_at'), q.exists, Not(q.isnull('completed_at')))
+
+
+def passes_filter(s, attrs):
+    flt = s.v['filter']
+    return Or(s.isnull('filter'), flt == '' if is_sym(flt) else flt == '',
+              And(F_filter_valid()(zstr(flt)), F_matches()(zstr(flt), attrs.has, attrs.val)))
+
+
+def c06_deadletter(ex, S, T):
+    out = []
+    a = S.args
+    k = T.kind
+    if S.err is not None:
+        return out
+    t0, tN = S.nows[0], S.nows[-1]
+    res_ids = [r['id'] for r in S.res.get('deliveries', [])] if k == 'pull' else []
+    tgt = target_sub(S, ex, a) if k == 'pull' else []
+    mv = []
+    for i, p in D(S):
+        q = postrow(S, 'Delivery', i)
+        m = moved(p, q)
+        mv.append(m)
+        due = dl_due(S, ex, p)
+        weak = And(p.v['expires_at'] > t0)
+        strict = And(p.exists, p.isnull('completed_at'), p.v['expires_at'] > tN)
+        if k == 'nack':
+            hit = isin(ex, p.v['id'], a['ids'])
+            out.append(('dead-lettered-only-when-due[%d]' % i, Implies(m, And(hit, due, weak))))
+            out.append(('due-is-dead-lettered[%d]' % i, Implies(And(strict, hit, due), m)))
+            # not due: rescheduled by the backoff, still outstanding
+            resched = Or(*[And(c, Or(*[ex.eq(q.v['attempt_at'], t + F_nominal()(zint(eff_min(s)), zint(eff_max(s)), zint(p.v['attempts'])) +
+                                            F_fuzz()(zint(s.v['id']), zint(p.v['attempts']))) for t in S.nows]))
+                             for c, s in sub_of(S, ex, p)])
+            out.append(('nack-reschedules-by-backoff[%d]' % i, Implies(And(strict, hit, Not(due)), And(q.isnull('completed_at'), resched))))
+        elif k == 'pull':
+            mine = Or(*[And(c, ex.eq(s.v['id'], p.v['subscription_id'])) for c, s in tgt])
+            inres = Or(*[ex.eq(r, p.v['id']) for r in res_ids])
+            out.append(('dead-lettered-only-when-due[%d]' % i, Implies(m, And(mine, due, weak, p.v['attempt_at'] <= tN))))
+            out.append(('never-delivered-beyond-N[%d]' % i, Implies(And(p.exists, inres), Not(due))))
+            out.append(('forwarded-not-also-delivered[%d]' % i, Not(And(m, inres))))
+            out.append(('delivery-counts-attempt[%d]' % i, Implies(And(p.exists, inres), And(ex.eq(q.v['attempts'], p.v['attempts'] + 1), q.isnull('completed_at')))))
+        elif k == 'sweep':
+            live = sub_live(S, ex, p)
+            out.append(('dead-lettered-only-when-due[%d]' % i, Implies(m, And(due, weak, live, p.v['attempt_at'] <= tN))))
+            out.append(('due-is-swept[%d]' % i, Implies(And(a['max'] >= len(S.pre['Delivery']), strict, due, live, p.v['attempt_at'] <= t0), m)))
+        out.append(('completed-at-now[%d]' % i, Implies(m, any_now(S, q.v['completed_at']))))
+    # forwarding: per (message, dead-letter subscription) the number of new deliveries equals the number of moved sources
+    nd = new_rows(S, 'Delivery')
+    for mi, msg in enumerate(S.pre['Message']):
+        for j, s2 in enumerate(S.pre['Subscription']):
+            expected = 0
+            for i, p in D(S):
+                dlt_ok = []
+                for c, s in sub_of(S, ex, p):
+                    for t in S.pre['Topic']:
+                        dlt_ok.append(And(c, Not(s.isnull('dead_letter_topic_id')), t.exists, t.isnull('deleted_at'),
+                                          ex.eq(t.v['id'], s.v['dead_letter_topic_id']), ex.eq(s2.v['topic_id'], t.v['id'])))
+                want = And(mv[i], ex.eq(p.v['message_id'], msg.v['id']), msg.exists, s2.exists, s2.isnull('deleted_at'),
+                           Or(*dlt_ok), passes_filter(s2, msg.v['attributes']))
+                expected = expected + Ite(want, 1, 0)
+            actual = 0
+            for n in nd:
+                actual = actual + Ite(And(n.exists, ex.eq(n.v['message_id'], msg.v['id']), ex.eq(n.v['subscription_id'], s2.v['id'])), 1, 0)
+            out.append(('forwarded-exactly-once[msg %d -> sub %d]' % (mi, j), ex.eq(expected, actual)))
+    for ni, n in enumerate(nd):
+        stamps = []
+        for s2 in S.pre['Subscription']:
+            stamps.append(And(ex.eq(n.v['subscription_id'], s2.v['id']), n.isnull('completed_at'), ex.eq(n.v['attempts'], 0),
+                              Or(*[And(ex.eq(n.v['expires_at'], t + s2.v['message_ttl']), ex.eq(n.v['attempt_at'], t + s2.v['delivery_delay'])) for t in S.nows])))
+        out.append(('forwarded-copy-is-fresh[%d]' % ni, Implies(n.exists, Or(*stamps))))
+    for i, p in enumerate(S.pre['Message']):
+        out.append(('message-row-shared-not-copied[%d]' % i, row_same(ex, p, S.post['Message'][i])))
+    out.append(('no-new-message-rows', len(S.post['Message']) == len(S.pre['Message'])))
+    return out
+
+
+def eff_min(s):
+    return Ite(And(Not(s.isnull('min_backoff')), s.v['min_backoff'] > 0), s.v['min_backoff'], MIN_DEFAULT)
+
+
+def eff_max(s):
+    return Ite(And(Not(s.isnull('max_backoff')), s.v['max_backoff'] > 0), s.v['max_backoff'], MAX_DEFAULT)
+
+
+# ------------------------------------------------------------------ C04 (transition part)
+def c04_lease(ex, S, T):
+    out = []
+    a = S.args
+    k = T.kind
+    if S.err is not None:
+        return out
+    t0, tN = S.nows[0], S.nows[-1]
+    if k == 'pull':
+        res = S.res.get('deliveries', [])
+        for i, p in D(S):
+            q = postrow(S, 'Delivery', i)
+            for r in res:
+                hit = And(p.exists, ex.eq(r['id'], p.v['id']))
+                lease = Or(*[And(c, Or(*[ex.eq(q.v['attempt_at'], t + F_nominal()(zint(eff_min(s)), zint(eff_max(s)), zint(p.v['attempts'] + 1)) +
+                                               F_fuzz()(zint(s.v['id']), zint(p.v['attempts'] + 1))) for t in S.nows]))
+                             for c, s in sub_of(S, ex, p)])
+                out.append(('lease[%d]' % i, Implies(hit, And(ex.eq(q.v['attempts'], p.v['attempts'] + 1), ex.eq(r['num_attempts'], p.v['attempts'] + 1),
+                                                                 lease, Not(q.isnull('last_attempted_at')), any_now(S, q.v['last_attempted_at']),
+                                                                 q.v['attempt_at'] >= t0))))
+            inres = Or(*[ex.eq(r['id'], p.v['id']) for r in res])
+            mv = moved(p, q)
+            out.append(('not-delivered-rows-keep-lease[%d]' % i, Implies(And(p.exists, Not(inres), Not(mv)), row_same(ex, p, q))))
+            # exclusivity: nothing whose deadline is still in the future is handed out
+            out.append(('leased-not-handed-out[%d]' % i, Implies(And(p.exists, p.v['attempt_at'] > tN), Not(inres))))
+    if k == 'delay':
+        d = a['delay']
+        for i, p in D(S):
+            q = postrow(S, 'Delivery', i)
+            hit = And(p.exists, isin(ex, p.v['id'], a['ids']), p.isnull('completed_at'))
+            pos = Or(*[And(Implies(p.v['attempt_at'] < t + d, ex.eq(q.v['attempt_at'], t + d)),
+                           Implies(p.v['attempt_at'] >= t + d, ex.eq(q.v['attempt_at'], p.v['attempt_at']))) for t in S.nows])
+            neg = Or(*[ex.eq(q.v['attempt_at'], t + d) for t in S.nows])
+            out.append(('positive-deadline-only-postpones[%d]' % i, Implies(And(hit, d > 0), And(pos, q.v['attempt_at'] >= p.v['attempt_at']))))
+            out.append(('zero-deadline-makes-due-now[%d]' % i, Implies(And(hit, d <= 0), And(neg, q.v['attempt_at'] <= tN))))
+            out.append(('only-attempt_at-changes[%d]' % i, row_same(ex, p, q, except_cols=('attempt_at',))))
+            out.append(('unaddressed-untouched[%d]' % i, Implies(Not(hit), row_same(ex, p, q))))
+    return out
+
+
+# ------------------------------------------------------------------ C13
+def c13_seek_time(ex, S, T):
+    out = []
+    a = S.args
+    tgt = target_sub(S, ex, a)
+    if S.err is not None:
+        for e in reldb.ENTITIES:
+            out.append(('failed-seek-no-change:' + e, table_same(ex, S.pre[e], S.post[e])))
+        return out
+    out.append(('subscription-resolved', Or(*[c for c, _ in tgt])))
+    t0, tN = S.nows[0], S.nows[-1]
+    Tm = a['time']
+    for i, p in D(S):
+        q = postrow(S, 'Delivery', i)
+        for c, s in tgt:
+            mine = And(c, p.exists, ex.eq(s.v['id'], p.v['subscription_id']))
+            retained = p.v['expires_at'] >= tN
+            gone = p.v['expires_at'] < t0
+            after = p.v['published_at'] > Tm
+            done = Not(p.isnull('completed_at'))
+            revived = And(q.exists, q.isnull('completed_at'), any_now(S, q.v['attempt_at']),
+                          Or(*[ex.eq(q.v['expires_at'], t + s.v['message_ttl']) for t in S.nows]))
+            out.append(('later-acked-message-revived[%d]' % i, Implies(And(mine, retained, after, done), revived)))
+            out.append(('later-unacked-message-stays-outstanding[%d]' % i, Implies(And(mine, retained, after, Not(done)), And(q.exists, q.isnull('completed_at')))))
+            out.append(('earlier-message-acknowledged[%d]' % i, Implies(And(mine, retained, Not(after)), And(q.exists, Not(q.isnull('completed_at'))))))
+            out.append(('earlier-acked-untouched[%d]' % i, Implies(And(mine, Not(after), done), row_same(ex, p, q))))
+            out.append(('unretained-untouched[%d]' % i, Implies(And(mine, gone), row_same(ex, p, q))))
+            out.append(('identity-kept[%d]' % i, Implies(mine, row_same(ex, p, q, except_cols=('completed_at', 'attempt_at', 'expires_at')))))
+        other = Not(Or(*[And(c, ex.eq(s.v['id'], p.v['subscription_id'])) for c, s in tgt]))
+        out.append(('other-subscriptions-untouched[%d]' % i, Implies(other, row_same(ex, p, q))))
+    out.append(('no-new-deliveries', len(S.post['Delivery']) == len(S.pre['Delivery'])))
+    for e in ('Topic', 'Subscription', 'Message', 'Snapshot'):
+        out.append(('seek-leaves:' + e, table_same(ex, S.pre[e], S.post[e])))
+    return out
+
+
+def c13_seek_snapshot(ex, S, T):
+    out = []
+    a = S.args
+    tgt = target_sub(S, ex, a)
+    if S.err is not None:
+        for e in reldb.ENTITIES:
+            out.append(('failed-seek-no-change:' + e, table_same(ex, S.pre[e], S.post[e])))
+        return out
+    snaps = []
+    for sn in S.pre['Snapshot']:
+        c = sn.exists
+        if a.get('snap_id') is not None:
+            c = And(c, ex.eq(sn.v['id'], a['snap_id']))
+        if not (isinstance(a.get('snap_name'), str) and a['snap_name'] == ''):
+            c = And(c, ex.eq(sn.v['name'], a['snap_name']))
+        snaps.append((c, sn))
+    out.append(('subscription-resolved', Or(*[c for c, _ in tgt])))
+    out.append(('snapshot-resolved', Or(*[c for c, _ in snaps])))
+    t0, tN = S.nows[0], S.nows[-1]
+    for i, p in D(S):
+        q = postrow(S, 'Delivery', i)
+        for c, s in tgt:
+            for c2, sn in snaps:
+                mine = And(c, c2, p.exists, ex.eq(s.v['id'], p.v['subscription_id']))
+                acked_in_snap = Or(p.v['published_at'] < sn.v['acked_messages_before'], isin(ex, p.v['message_id'], list(sn.v['acked_message_ids'])))
+                done = Not(p.isnull('completed_at'))
+                retained = p.v['expires_at'] >= tN
+                revived = And(q.exists, q.isnull('completed_at'), any_now(S, q.v['attempt_at']),
+                              Or(*[ex.eq(q.v['expires_at'], t + s.v['message_ttl']) for t in S.nows]))
+                out.append(('unacked-at-snapshot-restored[%d]' % i, Implies(And(mine, Not(acked_in_snap), done), revived)))
+                out.append(('unacked-at-snapshot-stays-outstanding[%d]' % i, Implies(And(mine, Not(acked_in_snap), Not(done)), And(q.exists, q.isnull('completed_at')))))
+                out.append(('acked-at-snapshot-acknowledged[%d]' % i, Implies(And(mine, acked_in_snap, retained), And(q.exists, Not(q.isnull('completed_at'))))))
+                out.append(('acked-before-stays-acked-untouched[%d]' % i, Implies(And(mine, acked_in_snap, done), row_same(ex, p, q))))
+                out.append(('identity-kept[%d]' % i, Implies(mine, row_same(ex, p, q, except_cols=('completed_at', 'attempt_at', 'expires_at')))))
+        other = Not(Or(*[And(c, ex.eq(s.v['id'], p.v['subscription_id'])) for c, s in tgt]))
+        out.append(('other-subscriptions-untouched[%d]' % i, Implies(other, row_same(ex, p, q))))
+    out.append(('no-new-deliveries', len(S.post['Delivery']) == len(S.pre['Delivery'])))
+    for e in ('Topic', 'Subscription', 'Message', 'Snapshot'):
+        out.append(('seek-leaves:' + e, table_same(ex, S.pre[e], S.post[e])))
+    return out
+
+
+def c13_create_snapshot(ex, S, T):
+    """the snapshot records exactly which retained messages of the subscription are acknowledged"""
+    out = []
+    a = S.args
+    if S.err is not None:
+        for e in reldb.ENTITIES:
+            out.append(('failed-snapshot-no-change:' + e, table_same(ex, S.pre[e], S.post[e])))
+        return out
+    ns = new_rows(S, 'Snapshot')
+    out.append(('one-snapshot-row', len(ns) == 1))
+    if len(ns) != 1:
+        return out
+    sn = ns[0]
+    t0, tN = S.nows[0], S.nows[-1]
+    subs = [(And(s.exists, s.isnull('deleted_at'), ex.eq(s.v['name'], a['sub_name'])), s) for s in S.pre['Subscription']]
+    out.append(('snapshot-identity', And(sn.exists, ex.eq(sn.v['name'], a['snap_name']), Or(*[And(c, ex.eq(sn.v['topic_id'], s.v['topic_id'])) for c, s in subs]),
+                                          ex.eq(S.res['SnapshotID'], sn.v['id']))))
+    L = list(sn.v['acked_message_ids'])
+    for i, p in D(S):
+        for c, s in subs:
+            mine = And(c, p.exists, ex.eq(s.v['id'], p.v['subscription_id']))
+            # the claim is for ordinary (non dead-letter) deliveries: stamped with their message's publish time, message on the sub's topic
+            ordinary = Or(*[And(m.exists, ex.eq(m.v['id'], p.v['message_id']), ex.eq(m.v['published_at'], p.v['published_at']),
+                                ex.eq(m.v['topic_id'], s.v['topic_id'])) for m in S.pre['Message']])
+            # distinct deliveries of the subscription carry distinct messages
+            uniq = And(*[Not(And(o.exists, ex.eq(o.v['subscription_id'], p.v['subscription_id']), ex.eq(o.v['message_id'], p.v['message_id'])))
+                         for j, o in D(S) if j != i])
+            retained = And(p.v['expires_at'] > tN, p.v['published_at'] < t0)    # timestamp ties with the snapshot instant are outside the claim
+            acked_in_snap = Or(p.v['published_at'] < sn.v['acked_messages_before'], isin(ex, p.v['message_id'], L))
+            done = Not(p.isnull('completed_at'))
+            out.append(('snapshot-records-ack-state[%d]' % i, Implies(And(mine, ordinary, uniq, retained), ex.eq(acked_in_snap, done))))
+    for i, p in D(S):
+        out.append(('snapshot-leaves-delivery[%d]' % i, row_same(ex, p, postrow(S, 'Delivery', i))))
+    for e in ('Topic', 'Subscription', 'Message'):
+        out.append(('snapshot-leaves:' + e, table_same(ex, S.pre[e], S.post[e])))
+    return out
+
+
+# ------------------------------------------------------------------ C14
+def c14_pull_refresh(ex, S, T):
+    out = []
+    a = S.args
+    tgt = target_sub(S, ex, a)
+    if S.err is not None:
+        return out
+    t0 = S.nows[0]
+    out.append(('pull-resolves-live-subscription-only', Or(*[c for c, _ in tgt])))
+    for j, s in enumerate(S.pre['Subscription']):
+        q = S.post['Subscription'][j]
+        mine = Or(*[And(c, ex.eq(x.v['id'], s.v['id'])) for c, x in tgt])
+        out.append(('pull-restarts-expiration-clock[%d]' % j, Implies(mine, And(q.v['expires_at'] >= t0 + s.v['ttl'], row_same(ex, s, q, except_cols=('expires_at',))))))
+    t_lo, t_hi = S.nows[0], S.nows[-1]
+    for k, r in enumerate(S.res.get('deliveries', [])):
+        conds = [And(p.exists, ex.eq(p.v['id'], r['id']), p.v['expires_at'] > t_lo, p.v['attempt_at'] <= t_hi) for i, p in D(S)]
+        out.append(('never-after-retention-never-before-deadline[%d]' % k, Or(*conds)))
+    return out
+
+
+def c14_expire(ex, S, T):
+    out = []
+    a = S.args
+    if S.err is not None:
+        return out
+    t0, tN = S.nows[0], S.nows[-1]
+    for j, s in enumerate(S.pre['Subscription']):
+        q = S.post['Subscription'][j]
+        newly = And(s.exists, s.isnull('deleted_at'), q.exists, Not(q.isnull('deleted_at')))
+        out.append(('expired-only-after-full-ttl[%d]' % j, Implies(newly, And(s.v['expires_at'] < tN, q.isnull('live'), any_now(S, q.v['deleted_at'])))))
+        out.append(('all-expired-are-deleted[%d]' % j, Implies(And(a['max_delete'] >= len(S.pre['Subscription']), s.exists, s.isnull('deleted_at'), s.v['expires_at'] < t0), newly)))
+        out.append(('unexpired-untouched[%d]' % j, Implies(Not(newly), row_same(ex, s, q))))
+        out.append(('only-deletion-markers-change[%d]' % j, row_same(ex, s, q, except_cols=('deleted_at', 'live'))))
+    for e in ('Topic', 'Message', 'Delivery', 'Snapshot'):
+        out.append(('expiry-leaves:' + e, table_same(ex, S.pre[e], S.post[e])))
+    return out
+
+
+def resolves_only_live(ex, S, T):
+    """entries that take a subscription / topic name succeed only if a live row carries it"""
+    out = []
+    a = S.args
+    if S.err is not None:
+        return out
+    if T.kind in ('seek', 'pull'):
+        out.append(('resolves-live-subscription-only', Or(*[c for c, _ in target_sub(S, ex, a)])))
+    if T.kind == 'create-snapshot':
+        out.append(('resolves-live-subscription-only', Or(*[And(s.exists, s.isnull('deleted_at'), ex.eq(s.v['name'], a['sub_name'])) for s in S.pre['Subscription']])))
+    return out
+
+
+# ------------------------------------------------------------------ C15
+def elig_state(ex, rows, subs, p, t):
+    base = And(p.exists, p.isnull('completed_at'), p.v['expires_at'] > t, p.v['attempt_at'] <= t)
+    alts = [p.isnull('not_before_id')]
+    for o in rows:
+        alts.append(And(Not(p.isnull('not_before_id')), o.exists, ex.eq(o.v['id'], p.v['not_before_id']),
+                        Or(Not(o.isnull('completed_at')), o.v['expires_at'] <= t)))
+    # a dangling link cannot exist (FK); an unresolved non-null link blocks (inner semantics of the LEFT JOIN: NULL columns -> not eligible)
+    ordered = Or(*[And(s.exists, ex.eq(s.v['id'], p.v['subscription_id']), s.v['ordered_delivery']) for s in subs])
+    live = Or(*[And(s.exists, ex.eq(s.v['id'], p.v['subscription_id']), s.isnull('deleted_at')) for s in subs])
+    return And(base, live, Or(Not(ordered), Or(*alts)))
+
+
+def c15_prune(ex, S, T):
+    out = []
+    a = S.args
+    if S.err is not None:
+        for e in reldb.ENTITIES:
+            out.append(('failed-job-no-change:' + e, table_same(ex, S.pre[e], S.post[e])))
+        return out
+    t0, tN = S.nows[0], S.nows[-1]
+    age = a['min_age']
+    job = T.job
+    for i, p in D(S):
+        q = postrow(S, 'Delivery', i)
+        removed = And(p.exists, Not(q.exists))
+        sub_deleted = Or(*[And(c, Not(s.isnull('deleted_at'))) for c, s in sub_of(S, ex, p)])
+        dead = Or(Not(p.isnull('completed_at')), p.v['expires_at'] < tN, sub_deleted)
+        out.append(('only-dead-deliveries-removed[%d]' % i, Implies(removed, dead)))
+        if job == 'prune_completed_deliveries':
+            out.append(('age-threshold-respected[%d]' % i, Implies(removed, And(Not(p.isnull('completed_at')), p.v['completed_at'] <= tN - age))))
+        if job == 'prune_deleted_subscription_deliveries':
+            out.append(('age-threshold-respected[%d]' % i, Implies(removed, Or(*[And(c, Not(s.isnull('deleted_at')), s.v['deleted_at'] <= tN - age) for c, s in sub_of(S, ex, p)]))))
+        if job not in ('prune_completed_deliveries', 'prune_expired_deliveries', 'prune_deleted_subscription_deliveries'):
+            out.append(('job-leaves-deliveries[%d]' % i, row_same(ex, p, q)))
+        else:
+            out.append(('survivors-unchanged[%d]' % i, Implies(q.exists, row_same(ex, p, q, except_cols=('not_before_id',)))))
+            # ordered delivery undisturbed: eligibility at any instant after the job equals eligibility before it
+            t = z3.Int('probe_t')
+            e1 = elig_state(ex, S.pre['Delivery'], S.pre['Subscription'], p, t)
+            e2 = elig_state(ex, S.post['Delivery'], S.post['Subscription'], q, t)
+            out.append(('eligibility-undisturbed[%d]' % i, Implies(And(q.exists, t >= tN), ex.eq(e1, e2))))
+    for i, m in enumerate(S.pre['Message']):
+        q = S.post['Message'][i]
+        removed = And(m.exists, Not(q.exists))
+        has_deliv = Or(*[And(d.exists, ex.eq(d.v['message_id'], m.v['id'])) for d in S.pre['Delivery']])
+        out.append(('only-undelivered-old-messages-removed[%d]' % i, Implies(removed, And(Not(has_deliv), m.v['published_at'] <= tN - age))))
+        out.append(('surviving-message-unchanged[%d]' % i, Implies(q.exists, row_same(ex, m, q))))
+    for j, s in enumerate(S.pre['Subscription']):
+        q = S.post['Subscription'][j]
+        removed = And(s.exists, Not(q.exists))
+        has_deliv = Or(*[And(d.exists, ex.eq(d.v['subscription_id'], s.v['id'])) for d in S.pre['Delivery']])
+        out.append(('only-deleted-empty-subscriptions-removed[%d]' % j, Implies(removed, And(Not(s.isnull('deleted_at')), s.v['deleted_at'] <= tN - age, Not(has_deliv)))))
+        if job != 'delete_expired_subscriptions':
+            out.append(('surviving-subscription-unchanged[%d]' % j, Implies(q.exists, row_same(ex, s, q, except_cols=('dead_letter_topic_id',)))))
+    for j, tp in enumerate(S.pre['Topic']):
+        q = S.post['Topic'][j]
+        removed = And(tp.exists, Not(q.exists))
+        has_sub = Or(*[And(s.exists, ex.eq(s.v['topic_id'], tp.v['id'])) for s in S.pre['Subscription']])
+        out.append(('only-deleted-empty-topics-removed[%d]' % j, Implies(removed, And(Not(tp.isnull('deleted_at')), tp.v['deleted_at'] <= tN - age, Not(has_sub)))))
+        out.append(('surviving-topic-unchanged[%d]' % j, Implies(q.exists, row_same(ex, tp, q))))
+    for e in reldb.ENTITIES:
+        out.append(('job-creates-nothing:' + e, len(S.post[e]) == len(S.pre[e])))
     return out
